@@ -106,17 +106,39 @@ def classify(meta, res, unit_file):
 
 def unit_result(unit, tier='quick', seed=0, probe=False, known_strict=()):
     """build + verify one unit (cached on the generated text)"""
-    with _extract_lock:     # the extractor keeps per-function counters in module state
-        path, meta = extract.build_unit(unit, REPO, VERIF, BUILD)
-        text = open(path).read()
-    key = hashlib.sha256((text + verus_version() + ' '.join(BASE_FLAGS)).encode()).hexdigest()[:24]
-    cdir = os.path.join(BUILD_ROOT, 'cache'); os.makedirs(cdir, exist_ok=True)
-    cpath = os.path.join(cdir, '%s-%s.json' % (unit, key))
-    if os.path.exists(cpath) and not os.environ.get('VERIF_NOCACHE'):
-        c = json.load(open(cpath)); c['cached'] = True; c['meta'] = meta
-        return c
-    res = run_verus(path)
-    cl = classify(meta, res, path)
+    force = set()
+    for _round in range(4):
+        with _extract_lock:     # the extractor keeps per-function counters in module state
+            try:
+                path, meta = extract.build_unit(unit, REPO, VERIF, BUILD, force_assume=force)
+            except extract.ExtractError as e0:
+                # a function can no longer be brought under its contract: verify the rest, that function becomes undecided
+                path, meta = extract.build_unit(unit, REPO, VERIF, BUILD, lenient=True, force_assume=force)
+                meta['lenient_reason'] = str(e0)
+            text = open(path).read()
+        key = hashlib.sha256((text + verus_version() + ' '.join(BASE_FLAGS)).encode()).hexdigest()[:24]
+        cdir = os.path.join(BUILD_ROOT, 'cache'); os.makedirs(cdir, exist_ok=True)
+        cpath = os.path.join(cdir, '%s-%s.json' % (unit, key))
+        if os.path.exists(cpath) and not os.environ.get('VERIF_NOCACHE'):
+            c = json.load(open(cpath)); c['cached'] = True; c['meta'] = meta
+            return c
+        res = run_verus(path)
+        cl = classify(meta, res, path)
+        if not cl['compile_errors']: break
+        # front-end rejection: if every error lies inside extracted function bodies, assume those functions and try again
+        bad_fns = set()
+        for d in res['diags']:
+            if d.get('level') != 'error' or d.get('message', '').startswith('aborting'): continue
+            msg0 = d.get('message', '')
+            if (d.get('code') is None and any(k in msg0 for k in VERIF_MSGS)) or 'rlimit' in msg0.lower(): continue
+            sp = [x for x in d.get('spans', []) if x.get('file_name', '').endswith(os.path.basename(path))]
+            hit = None
+            for f in meta['functions']:
+                if f.get('kind') == 'fn' and not f.get('assumed') and any(f['sig_line0'] <= x['line_start'] <= f['out_line1'] for x in sp): hit = f['name']
+            if hit: bad_fns.add(hit)
+            elif sp or d.get('code'): bad_fns.add(None)
+        if None in bad_fns or not bad_fns or bad_fns <= force: break
+        force |= bad_fns
     attempts = [dict(rlimit=40, seed=None, wall=res['wall'])]
     # retry rule (DESIGN 7): a proof under any seed is a proof.  Only re-run when something failed
     # that is not a compile error.
